@@ -591,28 +591,35 @@ def check_C18(tier, seed):
             insts.append(kw)
         described.append({"pid": pid_strings, "fmt": fmt_strings})
     rootrec = walker.walk_chains(base_kw, paths, per_path_inst=insts)
-    recs, order, parent = walker.flatten(rootrec)
-    viol, drift, jr = walker.judge(recs, consts)
-    v.drift += len(drift)
-    for clause, ns in sorted(viol.items()):
-        for n in ns:
-            chain = walker.lineage(order, parent, n)
-            sidx = chain[0].get("state", 0)
-            kw = insts[sidx] if sidx < len(insts) else {}
-            rec = order[n - 1]
-            desc = {"clause": clause, "op": rec["call"]["op"], "cls": rec["res"]["cls"],
-                    "identifiers": {k: (s_[:40] + ("..." if len(s_) > 40 else ""))
-                                    for k, s_ in kw.get("pid_strings", {}).items()}}
-            v.violation(desc, {"kind": "sequential-instantiated", "clause": clause,
-                               "pid_strings": kw.get("pid_strings"), "fmt_strings": kw.get("fmt_strings"),
-                               "history": [{"call": x["call"], "res": x["res"]} for x in chain],
-                               "how": "replay `history` on a fresh store with the given identifier strings"})
+    # TLC judges the observed forest in batches of histories (one JSON file of several hundred
+    # thousand records exhausts its heap)
+    kids = rootrec["kids"]
+    n_recs = 0
+    for b0 in range(0, max(1, len(kids)), 400):
+        sub = dict(rootrec, kids=kids[b0:b0 + 400])
+        recs, order, parent = walker.flatten(sub)
+        n_recs += len(recs) - 1
+        viol, drift, jr = walker.judge(recs, consts)
+        v.drift += len(drift)
+        for clause, ns in sorted(viol.items()):
+            for n in ns:
+                chain = walker.lineage(order, parent, n)
+                sidx = chain[0].get("state", 0)
+                kw = insts[sidx] if sidx < len(insts) else {}
+                rec = order[n - 1]
+                desc = {"clause": clause, "op": rec["call"]["op"], "cls": rec["res"]["cls"],
+                        "identifiers": {k: (s_[:40] + ("..." if len(s_) > 40 else ""))
+                                        for k, s_ in kw.get("pid_strings", {}).items()}}
+                v.violation(desc, {"kind": "sequential-instantiated", "clause": clause,
+                                   "pid_strings": kw.get("pid_strings"), "fmt_strings": kw.get("fmt_strings"),
+                                   "history": [{"call": x["call"], "res": x["res"]} for x in chain],
+                                   "how": "replay `history` on a fresh store with the given identifier strings"})
     def short(d_):
         return {k: (s_ if len(s_) <= 60 else s_[:57] + "...") for k, s_ in d_.items()}
-    v.coverage.update({"states": len(recs), "transitions": len(recs),
+    v.coverage.update({"states": n_recs + 1, "transitions": n_recs + 1,
                        "traces_validated_against_impl": len(paths),
                        "instantiations": n_inst, "histories_of_150_calls": len(paths),
-                       "observed_steps_judged": len(recs) - 1,
+                       "observed_steps_judged": n_recs,
                        "exhaustive": False,
                        "samples": [{"pid": short(d_["pid"]), "fmt": short(d_["fmt"])} for d_ in described[:4]],
                        "checker_cmd": "tlc -simulate MCContract (histories) ; harness walk under adversarial "
